@@ -272,6 +272,11 @@ def other_commands_injected(R, g, fails, known, stats, errnos):
                 sb2.cleanup()
                 if re.search(r"\(INJECTED\)", tr2) is None:
                     continue
+                if len(re.findall(r"\(INJECTED\)", tr2)) > 1:
+                    # strace counts `when=N` per thread: the scanner's worker thread got a fault of its own at ITS N-th call (a read
+                    # while planning). Two faults are outside the property's quantifier (every SINGLE injected failure)
+                    stats["skipped_multiple_injections"] = stats.get("skipped_multiple_injections", 0) + 1
+                    continue
                 stats["other_cmd_injected_runs"] = stats.get("other_cmd_injected_runs", 0) + 1
                 stats.setdefault("other_cmd_by_kind", {})[kind] = stats.setdefault("other_cmd_by_kind", {}).get(kind, 0) + 1
                 R.case(("inj2", kind, i, j, en, search, replace), nontrivial=True)
@@ -371,6 +376,9 @@ def run(R):
                 R.case(("inj", i, j, en, search, replace, ev.sys, ev.ordinal), nontrivial=True)
                 injected = re.search(r"\(INJECTED\)", tr2) is not None
                 if not injected:
+                    continue
+                if len(re.findall(r"\(INJECTED\)", tr2)) > 1:
+                    stats["skipped_multiple_injections"] = stats.get("skipped_multiple_injections", 0) + 1
                     continue
                 if rc2 == 0:
                     # reported success: whole plan applied and recorded
